@@ -22,13 +22,14 @@ def main(tier, seed, replay):
         k.validate_profile("vis_white", 60)
         k.model_check("MC_Rel", mc_consts(ops=3, **REL), inv)
         k.must_find("MC_Rel_F17", mc_consts(ops=5, impl="ImplF17", **REL), inv)
-        k.validate_profile("rel", 200)
+        k.validate_profile("rel", 120)
         k.validate_profile("rel_kf", 100, known=("F17",))
         k.validate_profile("rel_vis", 100, known=("F17",))
         k.validate_profile("kf_f17", 1, known=("F17",))
         k.replay_behaviours("TLC_walks", mc_consts(kinds=("spawn", "despawn", "insert", "remove", "mutate", "mark", "unmark"), ents=("e1", "e2"), clients=("c1", "c2"), ops=8, ticks=6, idle=3, cframes=8), 150, depth=80)
         # small scope, exhaustively, on the real apps: every settled state of the instance, shortest behaviour each
         k.replay_behaviours("EXH_Mut", mc_consts(kinds=("spawn", "insert", "mutate", "remove"), ops=3, ticks=2, idle=1, cframes=0), 0, invariants=inv)
+        k.replay_behaviours("EXH_Vis_white", mc_consts(policy="white", kinds=("spawn", "despawn", "setvis"), ops=4, ticks=2, idle=1, cframes=0), 0, invariants=inv)
         k.replay_behaviours("TLC_walks_rel", mc_consts(comps=("A",), kinds=("spawn", "despawn", "relate", "unrelate", "mutate"), ents=("e1", "e2"), clients=("c1", "c2"), ops=8, ticks=6, idle=3, cframes=8), 100, depth=80, known=("F17",))
     else:
         k.model_check("MC_Mut", mc_consts(ops=4, ticks=3, idle=2, cframes=3), inv, timeout=3000)
